@@ -75,10 +75,19 @@ func (p *Program) Transparent(f *ssa.Function) bool {
 	if p.Vocab == nil || f == nil || len(f.Blocks) == 0 || f.Parent() != nil || !p.funcSet[f] {
 		return false
 	}
-	if f.Synthetic != "" || p.IsGenerated(f) {
+	name := p.Name(f)
+	if f.Synthetic != "" {
+		// an instance of a generic function is as hand-written as the generic it was made from
+		o := f.Origin()
+		if o == nil || o == f || o.Synthetic != "" {
+			return false
+		}
+		name = p.Name(o)
+	}
+	if p.IsGenerated(f) {
 		return false
 	}
-	return !p.Vocab[p.Name(f)]
+	return !p.Vocab[name]
 }
 
 // InModule reports whether the import path belongs to the analysed module.
